@@ -47,7 +47,7 @@ COMPONENTS = {
              "time/queue/threading inside canopen modules", "caller threads = baton-passing real threads"],
 }
 PROBES = ["mode-T", "mode-I", "inline-delivery", "deferred-delivery", "unrelated-traffic", "preempted", "clients>=4", "by-name", "record-member",
-          "late-answers-queued", "mode-V"]
+          "late-answers-queued", "mode-V", "unwritten-object-read"]
 
 INT_TYPES = sorted(codec.INTS)
 STR_TYPES = (codec.VISIBLE_STRING, codec.UNICODE_STRING, codec.OCTET_STRING, codec.DOMAIN)
@@ -263,6 +263,25 @@ def scenario(ctx):
         ctx.cover(("I", t2, p2, cls, ch.inline_mode))
 
 
+def _check_unwritten(ctx, pairs, plans, tag):
+    """An object that only OTHER nodes' clients wrote holds nothing on this node (the generated
+    dictionaries have no defaults): a value there is another node's data."""
+    written = []
+    for ci, (r, l) in enumerate(pairs):
+        written.append(set(accessor(r.sdo, t, path, k)[1:] for (t, path, v, cls, k) in plans[ci]))
+    for ci, (r, l) in enumerate(pairs):
+        others = set().union(*[w for cj, w in enumerate(written) if cj != ci]) if len(pairs) > 1 else set()
+        for (index, sub) in sorted(others - written[ci])[:6]:
+            data, exc = call(l.get_data, index, sub)
+            if exc is None:
+                ctx.violation("C03/cross-talk/unwritten-object-holds-a-value",
+                              "%s: node %d was never written at %04X:%02X, yet it holds %r (another node's client wrote that object on its own node)" % (
+                                  tag, r.id, index, sub, bytes(data)[:24]))
+            elif not isinstance(exc, canopen.SdoAbortedError):
+                ctx.violation("C03/read-back-raised/%s@%s" % (type(exc).__name__, site(exc)), "%s: local read of %04X:%02X raised %r" % (tag, index, sub, exc))
+            ctx.probe("unwritten-object-read")
+
+
 def _slow_episode(ctx, ch, remote, nid):
     """The dispatcher that delivers the frames is late by more than the client's
     SDO time-out for a while: the 1..3 calls made meanwhile may time out (not
@@ -423,6 +442,7 @@ def _mode_v(ctx):
             bad = [k for k in set(have) | set(last) if have.get(k) != last.get(k)][0]
             ctx.violation("C03/cross-talk", "node %d: object %04X:%02X holds %r, its own client wrote %r last (python-can virtual bus)" % (
                 r.id, bad[0], bad[1], have.get(bad), last.get(bad)))
+    _check_unwritten(ctx, pairs, plans, "Mode V")
 
 
 def _mode_t(ctx):
@@ -522,3 +542,4 @@ def _mode_t(ctx):
             bad = [k for k in set(have) | set(last) if have.get(k) != last.get(k)][0]
             ctx.violation("C03/cross-talk", "node %d: object %04X:%02X holds %r, its own client wrote %r last" % (
                 r.id, bad[0], bad[1], have.get(bad) and have[bad][:24].hex(), last.get(bad) and last[bad][:24].hex()))
+    _check_unwritten(ctx, pairs, plans, "Mode T")
